@@ -85,7 +85,7 @@ def _load_cases(cdir):
 
 
 def _size(c):
-    return (len(c.get("hist", [])), len(c.get("observed", {}).get("trace", [])))
+    return (len(c.get("hist") or []), len((c.get("observed") or {}).get("trace") or []))
 
 
 def _input_of(c):
